@@ -124,6 +124,7 @@ type Config struct {
 	SessionCache             int   `json:"session_cache"`
 	EvidenceCache            int   `json:"evidence_cache"`
 	ClientBlockSyncAllowance int   `json:"client_block_allowance"`
+	SessionSyncAllowance     int   `json:"session_sync_allowance,omitempty"` // node configuration client_session_sync_allowance (sessions of the past a relay may still name)
 
 	Steps int `json:"n"`
 }
@@ -198,6 +199,7 @@ func Reset(cfg *Config, replica string, restartNo int) {
 	pocketTypes.GlobalSessionCache = nil
 	pc := sdk.DefaultTestingPocketConfig().PocketConfig
 	pc.ClientBlockSyncAllowance = cfg.ClientBlockSyncAllowance
+	pc.ClientSessionSyncAllowance = int64(cfg.SessionSyncAllowance)
 	pc.LeanPocket = true
 	pocketTypes.GlobalPocketConfig = pc
 	pocketTypes.InitClientBlockAllowance(cfg.ClientBlockSyncAllowance)
